@@ -114,12 +114,13 @@ theorem wp_newObservers (sc : Sctl) (mk : Nat → (Nat → Data → Prog) × (Na
     ∀ (n : Nat) (K : List Nat → Prog) (w : World) (M : List (Nat × Nat)) (s0 : Nat) (Q : World → Prop),
     w.held = [] → sc.serial ≠ sc.map → w.cells[sc.serial]? = some (.int (s0 : Int)) →
     w.cells[sc.map]? = some (encMap M) → (∀ p ∈ M, p.1 < s0) →
+    (∃ x, w.obs[sc.sub]? = some x ∧ x.isSub = true) →
     WP (K ((List.range n).map (w.obs.length + ·))) (newObsWorld sc mk w M s0 n) Q →
     WP (newObservers sc n mk K) w Q := by
   intro n
   induction n with
   | zero =>
-    intro K w M s0 Q _ _ hS hM _ hk
+    intro K w M s0 Q _ _ hS hM _ _ hk
     have e : newObsWorld sc mk w M s0 0 = w := by
       cases w
       simp only [newObsWorld, List.range_zero, List.map_nil, List.append_nil, Nat.add_zero] at hS hM ⊢
@@ -127,9 +128,10 @@ theorem wp_newObservers (sc : Sctl) (mk : Nat → (Nat → Data → Prog) × (Na
     rw [e] at hk
     simpa [newObservers] using hk
   | succ m ih =>
-    intro K w M s0 Q hh hne hS hM hkeys hk
+    intro K w M s0 Q hh hne hS hM hkeys hsub hk
+    obtain ⟨xs, hxs, hxsub⟩ := hsub
     simp only [newObservers]
-    refine ih _ w M s0 Q hh hne hS hM hkeys ?_
+    refine ih _ w M s0 Q hh hne hS hM hkeys ⟨xs, hxs, hxsub⟩ ?_
     simp only [Sctl.newObserver]
     have hS' : (newObsWorld sc mk w M s0 m).cells[sc.serial]? = some (.int ((s0 + m : Nat) : Int)) := by
       simp only [newObsWorld]
@@ -147,6 +149,15 @@ theorem wp_newObservers (sc : Sctl) (mk : Nat → (Nat → Data → Prog) × (Na
     rw [hM']
     rw [amapInsert_encMap]
     · refine wp_cellWrite hh ?_
+      refine wp_obsIsSub (x := xs) (by
+        show (((newObsWorld sc mk w M s0 m).obs ++ _)[sc.sub]?) = _
+        simp only [newObsWorld, List.append_assoc]
+        rw [List.getElem?_append_left (by
+          rcases Nat.lt_or_ge sc.sub w.obs.length with q | q
+          · exact q
+          · rw [List.getElem?_eq_none q] at hxs; cases hxs)]
+        exact hxs) ?_
+      simp only [hxsub, ↓reduceIte]
       have e1 : (List.range m).map (w.obs.length + ·) ++ [(newObsWorld sc mk w M s0 m).obs.length] =
           (List.range (m + 1)).map (w.obs.length + ·) := by
         simp [newObsWorld, List.range_succ]
@@ -490,7 +501,8 @@ theorem Rel.addObserver (h : Rel L fresh [] c x out w) {j : Nat} (hj : j < L.k) 
       log := h.log }
 
 /-- `new_observer(..)` for source `j` (stream_controller.rs:41-82) followed by `inner_subscribe` to subject `j` -/
-theorem newObserver_sub (ok : L.Ok) (h : Rel L fresh [] c x out w) {j : Nat} (hj : j < L.k) (hfr : fresh j = true)
+theorem newObserver_sub (ok : L.Ok) (h : Rel L fresh [] c x out w) (ha : c.alive = true) {j : Nat} (hj : j < L.k)
+    (hfr : fresh j = true)
     (hnl : c.live.contains j = false) (hnr : c.reg.contains j = false) (hs : L.ser j = x.sv) (ho : L.ob j = x.no)
     (n : Nat → Data → Prog) (e : Nat → Nat → Prog) (cc : Nat → Prog)
     (hcode : innerFull L j true =
@@ -518,7 +530,10 @@ theorem newObserver_sub (ok : L.Ok) (h : Rel L fresh [] c x out w) {j : Nat} (hj
         obs := w.obs ++ [innerFull L j true] } Q → WP p W Q := fun W p Q q hq => q ▸ hq
     refine e2 _ _ _ ?_ ?_
     · rw [hcode, h.nObs]
-    · show WP ((sjOf j).observable.sub w.obs.length) _ _
+    · have hroot := hA.root
+      rw [show (c.addObserver j).alive = true from ha] at hroot
+      refine wp_obsIsSub hroot ?_
+      simp only [rootObs, Obs.isSub, Option.isSome_some, Bool.and_self, ↓reduceIte]
       rw [h.nObs]
       have hsub := subscribe_src ok hA hj hfr (by simp [Ctl.addObserver])
       rw [ho] at hsub
